@@ -6,7 +6,7 @@ Spec: ClientConf.tla (reference Resolve / FaceOf + the clauses of the statement)
 A  TLC enumerates the product (Mode=conf) and the transport URIs (Mode=face); the clauses of the
    statement are invariants on the layered (implementation-shaped) reference; Witnesses = vacuity.
 B  spec -> code: every enumerated state is materialised - candidate files with present / absent /
-   commented keys, NDN_CLIENT_* variables, store directories of every location class, a Platform
+   commented keys or written as a 0-byte / whitespace-and-comments-only file, NDN_CLIENT_* variables, store directories of every location class, a Platform
    subclass whose ordered path lists point into the scratch tree - then read_client_conf,
    default_keychain and default_face are called and their projection is compared with the state's `out`.
    The real Linux platform lists are compared with their documented values under a patched HOME.
@@ -22,7 +22,7 @@ SETTINGS = ('transport', 'pib', 'tpm')
 STORES = ('pib', 'tpm')
 VALID = {'pib': 'pib-sqlite3', 'tpm': 'tpm-file'}
 ENVVAR = {s: 'NDN_CLIENT_' + s.upper() for s in SETTINGS}
-INVS = ['I_Precedence', 'I_FirstFile', 'I_AsGiven', 'I_NextToFile', 'I_FallBack', 'I_Determined', 'I_Face']
+INVS = ['I_Precedence', 'I_FirstFile', 'I_AsGiven', 'I_NextToFile', 'I_FallBack', 'I_Determined', 'I_Content', 'I_Face']
 JUDGE_CFG = 'ClientConfJudge.cfg'
 
 
@@ -161,7 +161,13 @@ class World:
 
     def file_text(self, c, i, style):
         st = style or {}
-        lines = ['; client configuration %d' % i, '']
+        body = (c.get('body') or ['plain'] * c['n'])[i - 1]
+        if body == 'empty':
+            return ''                                       # exists, 0 bytes
+        blank = body == 'blank'                             # whitespace and comment lines only
+        lines = ['', '   ', '\t'] if blank else ['; client configuration %d' % i, '']
+        if blank and (i % 2 or st.get('blank')):
+            lines.insert(1, '# nothing configured here')
         order = st.get('order', SETTINGS)
         for k, s in enumerate(order):
             state = c['key'][i - 1][s]
@@ -177,7 +183,8 @@ class World:
             if st.get('blank'):
                 lines.append('')
         for extra in st.get('extra', ()):
-            lines.insert(min(len(lines), extra[0]), extra[1])
+            if not blank or extra[1].lstrip()[:1] in ('', ';', '#'):
+                lines.insert(min(len(lines), extra[0]), extra[1])
         return '\n'.join(lines) + ('\n' if st.get('newline', True) else '')
 
     # -- projection of what the library returns
@@ -302,6 +309,8 @@ def compare(out, obs):
 
 def classify(c):
     """input class for signatures"""
+    if c['exist'] and (c.get('body') or ['plain'] * c['n'])[min(c['exist']) - 1] in ('empty', 'blank'):
+        return 'first-file-%s' % c['body'][min(c['exist']) - 1]
     if any(c['loc'][s] == 'absEc' for s in STORES):
         return 'colon-in-location'
     return 'general'
@@ -377,7 +386,20 @@ def rand_config(rng):
     env = {s: rng.random() < 0.35 for s in SETTINGS}
     loc = {s: rng.choice(LOC_C[:7]) if rng.random() < 0.93 else 'absEc' for s in STORES}
     defx = {s: [rng.random() < 0.5 for _ in range(rng.randint(1, 3))] for s in STORES}
-    return {'n': n, 'exist': exist, 'key': key, 'env': env, 'loc': loc, 'defx': defx}
+    body = []
+    for i in range(n):
+        opts = ['plain', 'plain']
+        if all(v == 'absent' for v in key[i].values()):
+            opts += ['empty', 'empty', 'blank']
+        if all(v != 'present' for v in key[i].values()):
+            opts += ['blank', 'blank']
+        body.append(rng.choice(opts))
+    if exist and rng.random() < 0.25:
+        # the situation "first existing file carries nothing, a later one does" deserves weight
+        f = exist[0]
+        key[f - 1] = {s: rng.choice(['absent', 'absent', 'commented']) for s in SETTINGS}
+        body[f - 1] = rng.choice(['empty', 'blank']) if all(v == 'absent' for v in key[f - 1].values()) else 'blank'
+    return {'n': n, 'exist': exist, 'key': key, 'body': body, 'env': env, 'loc': loc, 'defx': defx}
 
 
 def rand_style(rng):
@@ -414,7 +436,8 @@ def rand_uri(rng):
 
 def tojson_cfg(x):
     """state variable x of ClientConfMC (via dump) -> configuration dict used by World"""
-    return {'n': x['n'], 'exist': sorted(x['exist']), 'key': x['key'], 'env': x['env'], 'loc': x['loc'], 'defx': x['defx']}
+    return {'n': x['n'], 'exist': sorted(x['exist']), 'key': x['key'], 'body': x['body'], 'env': x['env'],
+            'loc': x['loc'], 'defx': x['defx']}
 
 
 def nontrivial(c):
